@@ -66,6 +66,11 @@ THEOREMS = [
     "OllamaVerif.C06.rowsFresh_run",
     "OllamaVerif.C06.defrag_abs_perm_layers",
     "OllamaVerif.Causal.defragCore_rows_sub",
+    "OllamaVerif.C06.startForward_unwind_abs_pre",
+    "OllamaVerif.C06.wrapper_rejected_batch_spec",
+    "OllamaVerif.C06.wrapper_forward_refines",
+    "OllamaVerif.C06.wrapper_reserve_mask_exact",
+    "OllamaVerif.C06.placeBase_shrunk",
     "OllamaVerif.C06.canResume_sound",
     "OllamaVerif.C06.window_present",
     "OllamaVerif.C06.pigeon",
